@@ -36,7 +36,7 @@ func (p *Prog) buildCanon() {
 		}
 		return nil
 	}
-	ts := func(t types.Type) string { return types.TypeString(t, shortQual) }
+	ts := TypeStr
 	byType := func(n *types.Named, want map[string]string) {
 		s, _ := n.Underlying().(*types.Struct)
 		if s == nil {
